@@ -487,7 +487,7 @@ func runCase(in In, dir string) (obs Obs) {
 
 func generate(o *hx.Opts) []In {
 	r := o.Rand(8)
-	n := o.N(400, 6000)
+	n := o.N(400, 12000)
 	var out []In
 	procsQuick := []int{2, 4, 8, 16}
 	procsAll := []int{1, 2, 3, 4, 8, 16, 32}
@@ -544,6 +544,15 @@ func generate(o *hx.Opts) []In {
 	return out
 }
 
+func replayRuns() int {
+	if v := os.Getenv("VERIFH_REPLAY_RUNS"); v != "" {
+		if n, err := strconv.Atoi(v); err == nil && n >= 1 {
+			return n
+		}
+	}
+	return 40
+}
+
 func workers() int {
 	if v := os.Getenv("VERIFH_WORKERS"); v != "" {
 		if n, err := strconv.Atoi(v); err == nil && n >= 1 {
@@ -568,7 +577,11 @@ func Run(o *hx.Opts, w *lineio.Writer) error {
 			if in.Kind == "worker" {
 				continue
 			}
-			cases = append(cases, in)
+			// the schedule is the Go runtime's: a replayed configuration is re-run several
+			// times (every run is judged) so that a schedule-dependent failure reproduces
+			for k := 0; k < replayRuns(); k++ {
+				cases = append(cases, in)
+			}
 		}
 	} else {
 		cases = generate(o)
@@ -581,6 +594,6 @@ func Run(o *hx.Opts, w *lineio.Writer) error {
 		dir := filepath.Join(o.Scratch, fmt.Sprintf("r%d", i))
 		obs := runCase(in, dir)
 		os.RemoveAll(dir)
-		return &lineio.Case{ID: fmt.Sprintf("c08-%s-%d", in.Kind, in.Idx), In: in, Obs: obs}
+		return &lineio.Case{ID: fmt.Sprintf("c08-%s-%d#%d", in.Kind, in.Idx, i), In: in, Obs: obs}
 	})
 }
